@@ -32,22 +32,20 @@ macro_rules! fs_stubs {
     };
 }
 
-// write_index_to_file: one attempt, with and without an update section, I/O faults on.
+// write_index_to_file: one attempt, with and without an update section (one harness each: the two
+// shapes take different paths through the routine).
+macro_rules! index_write_h {
+    ($name:ident, $with_update:expr) => {
 fs_stubs! {
-// @harness prop=C06 tier=quick timeout=900 replay=none role=index-write-temp-file
-// @bounds header 16 bytes, 0..=2 sorted entries (18 bytes each; concrete lengths 0/18/36 chosen symbolically), update section present or absent (symbolic), content symbolic; I/O operations succeed (fault injection creates io::Error values whose drop glue does not terminate in CBMC: error paths are outside this harness)
-// @encodes cascette_client_storage::index::IndexManager::write_index_to_file
-// @assumes std::fs File::create/write/flush/sync_all, fs::rename/remove_file/create_dir_all and the fd drop replaced by the trace model (common/fstrace.rs); BufWriter and binrw writers run for real; fmt/tracing off
-// @catches fsync skipped on a branch, flush missing before fsync, data written after fsync
 #[kani::unwind(5)]
-fn c06_index_write_temp_file() {
+fn $name() {
     fs::reset(b"d/00.idx", false, 0);
     let header: [u8; 16] = kani::any();
     let entries: [u8; 36] = kani::any();
     let ne: usize = kani::any();
     kani::assume(ne <= 2);
     let upd: [u8; 8] = kani::any();
-    let with_update: bool = kani::any();
+    let with_update: bool = $with_update;
     let r = IndexManager::verif_write_index_to_file(
         Path::new("d/00.tmp"),
         &header,
@@ -57,34 +55,62 @@ fn c06_index_write_temp_file() {
     let ok = r.is_ok();
     std::mem::forget(r);
     unsafe {
-        if ok {
-            assert!(fs::FS.nfiles == 1, "exactly one temp file created");
-            let f = fs::FS.files[0];
-            assert!(f.kind == 2, "data must go to the temp path");
-            assert!(!f.failed, "Ok reported although an operation on the file failed");
-            assert!(f.writes >= 1 && f.written >= 8 + 16 + 8 + 8 + ne * 18, "Ok reported before all bytes reached the file (flush missing?)");
-            assert!(f.synced_after_last_write, "Ok reported without fsync after the last write");
+        assert!(ok, "write_index_to_file failed although every I/O operation succeeded");
+        assert!(fs::FS.nfiles == 1, "exactly one temp file created");
+        let f = fs::FS.files[0];
+        assert!(f.kind == 2, "data must go to the temp path");
+        assert!(!f.failed, "Ok reported although an operation on the file failed");
+        assert!(f.writes >= 1 && f.written >= 8 + 16 + 8 + 8 + ne * 18, "Ok reported before all bytes reached the file (flush missing?)");
+        if with_update {
+            assert!(f.written >= 65536 + 8, "the 64 KiB-aligned update section did not reach the file");
         }
+        assert!(f.synced_after_last_write, "Ok reported without fsync after the last write");
         assert!(!fs::FS.final_created, "final path touched");
-        kani::cover!(ok && with_update, "success with an update section");
-        kani::cover!(ok && !with_update, "success without an update section");
+        kani::cover!(ok && ne == 2, "success with two sorted entries");
     }
 }
 }
+    };
+}
+// @family prop=C06 tier=quick timeout=900 replay=none role=index-write-temp-file
+// @bounds header 16 bytes, 0..=2 sorted entries (18 bytes each, count symbolic), update section present or absent (per harness), content symbolic; all I/O operations succeed (fault injection creates io::Error values whose drop glue does not terminate in CBMC: error paths are outside)
+// @encodes cascette_client_storage::index::IndexManager::write_index_to_file
+// @assumes std::fs File::create/write/flush/seek/sync_all, fs::rename/remove_file/create_dir_all and the fd drop replaced by the I/O trace model (common/fstrace.rs); BufWriter and binrw writers run for real; every format!() is on an error path (stubbed to a failed check that ends the path); tracing off
+// @catches fsync skipped on a branch (e.g. only when an update section exists), flush missing before fsync, data written after fsync, direct write to the final path
+index_write_h!(c06_index_write_temp_file_sorted_only, false);
+index_write_h!(c06_index_write_temp_file_with_updates, true);
+// @end
 
 // (A composition harness for save_index's retry/rename logic over the contract of
 // write_index_to_file was attempted and dropped: the header serialisation through binrw onto a Cursor
 // keeps an error path alive whose binrw::Error drop glue exhausts memory even at unwind 4; measured
 // 11 min -> OOM at 16 GB.  save_index's loop is therefore outside the claim.)
 
+// std path manipulation is environment code whose debug-assertion UTF-8 boundary checks dominate
+// symex; for the ONE concrete path used below it is replaced by its concrete result.
+fn with_extension_dk<S: AsRef<std::ffi::OsStr>>(p: &Path, ext: S) -> PathBuf {
+    let e = ext.as_ref().as_encoded_bytes();
+    assert!(e.len() == 3 && e[0] == b't' && e[1] == b'm' && e[2] == b'p', "path model: only with_extension(\"tmp\") is modelled");
+    let b = p.as_os_str().as_encoded_bytes();
+    assert!(b.len() == 3 && b[0] == b'd' && b[1] == b'/' && b[2] == b'k', "path model: only the path d/k is modelled");
+    PathBuf::from("d/k.tmp")
+}
+fn parent_dk(p: &Path) -> Option<&Path> {
+    let b = p.as_os_str().as_encoded_bytes();
+    assert!(b.len() == 3 && b[0] == b'd' && b[1] == b'/' && b[2] == b'k', "path model: only the path d/k is modelled");
+    Some(Path::new("d"))
+}
+
 // ResidencyDb::save
 fs_stubs! {
-// @harness prop=C06 tier=quick timeout=1500 mem=24 replay=none role=residency-save-atomic-replace
+// @harness prop=C06 tier=thorough timeout=3400 mem=24 replay=none role=residency-save-atomic-replace
 // @bounds database with one page holding one entry (symbolic 16-byte key), built through the cfg(kani) shim verif_with_single_page; all I/O operations succeed
 // @encodes cascette_client_storage::kmt::key_state::ResidencyDb::save, cascette_client_storage::kmt::key_state::ResidencyPage::to_bytes
-// @assumes std::fs operations replaced by the trace model (common/fstrace.rs); fmt/tracing off
+// @assumes std::fs operations replaced by the trace model (common/fstrace.rs); Path::with_extension / Path::parent replaced by their concrete results for the path d/k; every format!() is on an error path (stubbed to a failed check); tracing off
 // @catches explicit flush dropped (buffered data written after fsync/rename), fsync missing, in-place write
 #[kani::unwind(17)]
+#[kani::stub(std::path::Path::with_extension, with_extension_dk)]
+#[kani::stub(std::path::Path::parent, parent_dk)]
 fn c06_residency_save() {
     fs::reset(b"d/k", false, 0);
     let key: [u8; 16] = kani::any();
